@@ -223,3 +223,53 @@ def dominating_guards(site_node: ast.AST) -> List[Tuple[str, bool]]:
         if isinstance(a, (ast.FunctionDef, ast.AsyncFunctionDef)):
             break
     return out
+
+
+class GuardFacts:
+    """the conditions known at a site as a set of canonical facts: every (test, polarity) of dominating_guards is brought to
+    negation normal form and split into its conjuncts, so `len(n) >= 2` is known in the body of `if len(n) >= 2:`, in the else
+    branch of `if len(n) < 2:`, after `if not len(n) >= 2: return`, and under `if 2 <= len(n) and x:` alike.
+    .get(text) -> True (the condition holds) / False (its negation holds) / None (unknown) - the dict interface the rules used."""
+
+    def __init__(self, guards: List[Tuple[str, bool]]):
+        from .pyfacts import canon_cond, push_not
+        self.facts: Set[str] = set()
+        for t, pol in guards:
+            try:
+                e = ast.parse(t, mode='eval').body
+            except SyntaxError:
+                continue
+            nn = push_not(e, not pol)
+            stack = [nn]
+            while stack:
+                x = stack.pop()
+                if isinstance(x, ast.BoolOp) and isinstance(x.op, ast.And):
+                    stack.extend(x.values)
+                else:
+                    self.facts.add(canon_cond(x))
+
+    def get(self, text: str, default: Optional[bool] = None) -> Optional[bool]:
+        from .pyfacts import canon_cond, push_not
+        e = ast.parse(text, mode='eval').body
+        pos = [canon_cond(x) for x in self._conj(push_not(e))]
+        if all(p in self.facts for p in pos):
+            return True
+        neg = [canon_cond(x) for x in self._conj(push_not(e, True))]
+        if all(p in self.facts for p in neg):
+            return False
+        return default
+
+    @staticmethod
+    def _conj(x: ast.expr) -> List[ast.expr]:
+        if isinstance(x, ast.BoolOp) and isinstance(x.op, ast.And):
+            out: List[ast.expr] = []
+            for v in x.values:
+                out.extend(GuardFacts._conj(v))
+            return out
+        return [x]
+
+    def __contains__(self, item: Tuple[str, bool]) -> bool:
+        return self.get(item[0]) is item[1]
+
+    def __iter__(self):          # type: ignore[no-untyped-def]
+        return iter(())
